@@ -100,3 +100,66 @@ def re_match(E, st, args, kw):
     if z3.is_string_value(pat) and pat.as_string() == IPV6_PATTERN:
         return ipv6_match(E, st, args[1])
     raise Unsupported("re.match with pattern %s" % pat)
+
+
+# ------------------------------------------------------------------------------------------------------------------------------------------
+# the uri regular expression of core.URI
+
+URI_PATTERN = r"(?P<protocol>[Pp][Yy][Rr][Oo][a-zA-Z]*):(?P<object>\S+?)(@(?P<location>.+))?$"
+LETTER = z3.Union(z3.Range("a", "z"), z3.Range("A", "Z"))
+PROTO_RE = z3.Concat(z3.Union(z3.Re("P"), z3.Re("p")), z3.Union(z3.Re("Y"), z3.Re("y")), z3.Union(z3.Re("R"), z3.Re("r")), z3.Union(z3.Re("O"), z3.Re("o")), z3.Star(LETTER))
+_WS = [chr(c) for c in range(0x30000) if chr(c).isspace()]      # the characters \s matches in a str pattern (sre: Py_UNICODE_ISSPACE)
+SPACE = z3.Union(*[z3.Re(z3.StringVal(c)) for c in _WS])
+
+
+def no_space(s):
+    return z3.Not(z3.InRe(s, z3.Concat(z3.Full(z3.ReSort(StrS)), SPACE, z3.Full(z3.ReSort(StrS)))))
+
+
+def uri_split(u):
+    """(matches, protocol, object, has_location, location) of uriRegEx.match(u) for a text u WITHOUT newline characters:
+    protocol = the text before the first ':' (must be PYRO + letters, any case); rest = the text after it;
+    j = the first '@' of rest at an index >= 1; if it exists and is not the last character: object = rest[:j], location = rest[j+1:];
+    otherwise object = rest, no location; the object is non-empty and contains no whitespace (the lazy \\S+? cannot step over one)."""
+    c = z3.IndexOf(u, z3.StringVal(":"), 0)
+    proto = z3.SubString(u, 0, c)
+    rest = z3.SubString(u, c + 1, z3.Length(u) - c - 1)
+    j = z3.IndexOf(rest, z3.StringVal("@"), 1)
+    split = z3.And(j >= 1, j <= z3.Length(rest) - 2)
+    obj = z3.If(split, z3.SubString(rest, 0, j), rest)
+    loc = z3.If(split, z3.SubString(rest, j + 1, z3.Length(rest) - j - 1), z3.StringVal(""))
+    ok = z3.And(c >= 4, z3.InRe(proto, PROTO_RE), z3.Length(obj) >= 1, no_space(obj))
+    return ok, proto, obj, split, loc
+
+
+@R.spec("re.compile", doc="re.compile(<the uri pattern of core.URI>): a pattern object whose match() follows specs.strings.uri_split")
+def re_compile(E, st, args, kw):
+    pat = z3.simplify(args[0].e)
+    if z3.is_string_value(pat) and pat.as_string() == URI_PATTERN:
+        return [Res(st, st.new_obj("re.Pattern", pattern=URI_PATTERN))]
+    raise Unsupported("re.compile with pattern %s" % pat)
+
+
+@R.model("re.Pattern")
+class PatternModel:
+    """compiled uri pattern: match(text) is None or a match object with the named groups protocol / object / location (None when absent)"""
+
+    def getattr(self, E, st, obj, name):
+        return None
+
+    def m_match(self, E, st, obj, args, kw):
+        u = args[0]
+        ok, proto, o, split, loc = uri_split(u.e)
+        out = []
+        for s2, matched in E.branch(st, ok):
+            if not matched:
+                out.append(Res(s2, NONE))
+                continue
+            m = s2.new_obj("re.Match", named={"protocol": VStr(proto), "object": VStr(o), "location": VOpt(z3.Not(split), VStr(loc))})
+            out.append(Res(s2, m))
+        return out
+
+    methods = {"match": m_match}
+
+
+MatchModel.truth = lambda self, E, st, obj: z3.BoolVal(True)
